@@ -38,6 +38,7 @@ import json
 import time
 from typing import Any, Dict, List, Optional, Tuple
 
+import gentie
 import qlib
 import vlib
 
@@ -1122,6 +1123,9 @@ def run(ctx: vlib.Ctx):
                        "count": len(disagreements)}, found_input=False)
     elif disagreements:
         ctx.notes.append(f"{len(disagreements)} model/impl disagreements (first: {json.dumps(disagreements[0], default=str)[:600]})")
+    # generated tie: TOCSchemas.versions is re-translated from the current source and proved equal to
+    # Toc/Query.v `tversions` (coq/Gen/Equiv_tocschemas.v)
+    gentie.report(ctx)
 
 
 def describe(v: dict) -> str:
